@@ -90,6 +90,7 @@ def apply_ops(factory, ops, unique=False, hook=None):
     extra ops:  ('new', {cfg overrides})   continue with a fresh matcher (same map symbols)
                 ('match_u', T)             match(path[:T], unique=True)
                 ('loglevel', 'DEBUG'|'ERROR')
+                ('hashsalt', k)            entries hash as (k, name) from here on (k=0: the original hash)
     """
     import logging
     lg = logging.getLogger("be.kuleuven.cs.dtai.mapmatching")
@@ -109,6 +110,14 @@ def apply_ops(factory, ops, unique=False, hook=None):
                 continue
             if kind == 'loglevel':
                 lg.setLevel(getattr(logging, op[1]))
+                continue
+            if kind == 'hashsalt':
+                # another process = another string-hash salt = another iteration order of every set of lattice entries
+                from leuvenmapmatching.matcher.base import BaseMatching as _BM
+                if '__orig_hash__' not in _BM.__dict__:
+                    _BM.__orig_hash__ = _BM.__hash__
+                k = op[1]
+                _BM.__hash__ = _BM.__orig_hash__ if not k else (lambda self, k=k: hash((k, self.cname)))
                 continue
             if kind == 'match':
                 st, idx = mt.match(path[:op[1]], unique=unique)
@@ -132,6 +141,9 @@ def apply_ops(factory, ops, unique=False, hook=None):
             res.append(r)
     finally:
         lg.setLevel(logging.ERROR)
+        from leuvenmapmatching.matcher.base import BaseMatching as _BM
+        if '__orig_hash__' in _BM.__dict__:
+            _BM.__hash__ = _BM.__orig_hash__
     return res, path, mp, mt
 
 
